@@ -37,11 +37,11 @@ THEOREMS = [
 LEAN_MODULES = ["PorepyVerif.C16.Props"]
 AUDIT = "PorepyVerif/C16/Audit.lean"
 DRIVER = "PorepyVerif/C16/Driver.lean"
-N = {"quick": 22, "thorough": 500}
+N = {"quick": 22, "thorough": 300}
 KEY = "mechanics"
 TOL_STRESS = 1e-10   # relative to the size of the cancelling terms (mu |t| area / delta)
 TOL_RESID = 1e-10
-TOL_SOLVE = 1e-8     # relative to max(1, |t|_inf)
+TOL_SOLVE = 1e-8     # relative to max(1, |t|_inf); widened to 1e-15 * cond(A) for ill-conditioned systems
 TOL_CORR = 1e-9
 RESID_MAX_CELLS = {"quick": 8, "thorough": 16}
 RULE = ("grids: 2-D Cartesian / structured triangles, 3-D Cartesian / structured tetrahedra, 1..3 (quick) resp. 1..5 (thorough, 2-D) / 1..3 (3-D) "
@@ -61,8 +61,10 @@ TRUSTED = [
     "= |n.(x_f - x_c)|/|n| (square root inside the area) are computed by the harness from that geometry and are input data of the model",
     "the assembly of the full system (divergence, accumulation, right-hand side) follows the Tpsa class docstring / test_tpsa._assemble_matrices and is "
     "re-implemented in the harness; the model's `resid` is tied to it on small grids",
-    "uniqueness of the discrete solution is the hypothesis `Nonsingular` of tpsa_translation_unique; on the real code it is observed (scipy spsolve "
-    "returns a finite solution equal to the translation to 1e-8)",
+    "uniqueness of the discrete solution is the hypothesis `Nonsingular` of tpsa_translation_unique; on the real code it is observed (dense SVD: "
+    "condition number < 1e11, then scipy spsolve returns the translation to 1e-8); all-Dirichlet systems must be nonsingular, mixed systems that "
+    "are singular (a strip one cell wide with traction-free lateral faces has a discrete shear/rotation mode) are counted in the evidence and only "
+    "checked for (i) and (ii)",
     "closedness of every cell (signed face normals sum to zero) and opposite signs on interior faces are hypotheses of the theorems; the oracle "
     "re-checks them on every generated grid",
     "binary64 rounding, scipy.sparse, SuperLU",
@@ -78,7 +80,7 @@ ASSUMPTIONS = ["the system matrix is nonsingular (hypothesis of tpsa_translation
                "no Robin faces for the property statements (the property quantifies over Dirichlet / mixed Dirichlet-Neumann data)"]
 
 _CACHE = {}
-_RUNSTATS = {"max_solve_err": 0.0, "max_stress_rel": 0.0, "max_resid_rel": 0.0, "solves": 0}
+_RUNSTATS = {"max_solve_err": 0.0, "max_stress_rel": 0.0, "max_resid_rel": 0.0, "solves": 0, "singular_mixed": 0, "max_cond": 0.0}
 
 
 def _F(x):
@@ -136,7 +138,7 @@ def gen_case(rng, tier):
     else:
         m = 3 if big else 2
         n = [rng.randint(1, m) for _ in range(3)]
-        if not big and kind == "tet" and n[0] * n[1] * n[2] > 4:
+        while kind == "tet" and n[0] * n[1] * n[2] > (8 if big else 4):  # 6 tetrahedra per box
             n[rng.randrange(3)] = 1
     phys = [rng.choice([Fraction(1, 2), Fraction(1), Fraction(1), Fraction(3, 2), Fraction(2), Fraction(4)]) for _ in n]
     gs = {"kind": {"cart2": "cart", "cart3": "cart"}.get(kind, kind), "n": n, "phys": [frac(p) for p in phys],
@@ -417,21 +419,36 @@ def oracle(case):
         eq = "momentum" if k < nc * nd else ("rotation" if k < nc * nd + nc * rd else "mass")
         return {"what": f"(t,0,0) with t={case['t']} does not satisfy the {eq} balance: row {k} residual {res[k]!r} (terms of size {rscale[k]:.3e}); "
                         f"grid {case['grid']}, neu={case['neu']}", "key": f"residual-nonzero:{eq}"}
-    # (iii) the solve returns the translation
+    # (iii) the solve returns the translation -- provided the system is nonsingular (explicit hypothesis of the
+    # property / of tpsa_translation_unique).  With all-Dirichlet data TPSA must be uniquely solvable, a singular
+    # matrix is then a failure.  With Neumann faces the discrete system can be genuinely singular (e.g. a strip that
+    # is one cell wide with traction-free lateral faces has a discrete shear/rotation mode; test_tpsa.py notes the
+    # same: "at least two cells are needed ... to ensure solvability"); such cases are counted, (ii) still applies.
     A = (s["div"] @ s["F"] - s["accum"]).tocsc()
     b = -(s["div"] @ (s["R"] @ gv))
+    sv = np.linalg.svd(A.toarray(), compute_uv=False)
+    cond = float(sv[0] / sv[-1]) if sv[-1] > 0 else float("inf")
+    if not np.isfinite(cond) or cond > 1e11:
+        if not case["neu"]:
+            return {"what": f"the TPSA system with all-Dirichlet data is singular (condition number {cond:.3e}); grid {case['grid']}",
+                    "key": "singular-system:dirichlet"}
+        _RUNSTATS["singular_mixed"] += 1
+        return None
+    _RUNSTATS["max_cond"] = max(_RUNSTATS["max_cond"], cond)
     with warnings.catch_warnings():
         warnings.simplefilter("ignore")
         try:
             x = spla.spsolve(A, b)
-        except Exception as e:  # singular factorisation
-            return {"what": f"the TPSA system could not be solved ({type(e).__name__}: {e}); grid {case['grid']}, neu={case['neu']}", "key": "singular-system"}
+        except Exception as e:
+            return {"what": f"the TPSA system could not be solved ({type(e).__name__}: {e}); grid {case['grid']}, neu={case['neu']}", "key": "solve-failed"}
     if not np.isfinite(x).all():
-        return {"what": f"the TPSA system is singular (non-finite solution); grid {case['grid']}, neu={case['neu']}", "key": "singular-system"}
+        return {"what": f"spsolve returned a non-finite solution although the condition number is {cond:.3e}; grid {case['grid']}, neu={case['neu']}",
+                "key": "solve-failed"}
+    tol = max(TOL_SOLVE, 1e-15 * cond)
     err = np.abs(x - xe)
     _RUNSTATS["solves"] += 1
     _RUNSTATS["max_solve_err"] = max(_RUNSTATS["max_solve_err"], float(err.max(initial=0.0)) / max(1.0, tinf))
-    if err.max(initial=0.0) > TOL_SOLVE * max(1.0, tinf):
+    if err.max(initial=0.0) > tol * max(1.0, tinf):
         k = int(np.argmax(err))
         blk = "displacement" if k < nc * nd else ("rotation" if k < nc * nd + nc * rd else "pressure")
         return {"what": f"solving with translation data t={case['t']} returns {x[k]!r} instead of {xe[k]!r} in unknown {k} ({blk}); "
@@ -502,5 +519,6 @@ def stats(cases, impl_outs):
             "faces_tied_to_model": nfaces, "cells": ncells, "faces_interior": n_int, "faces_dirichlet": n_dir, "faces_neumann": n_neu,
             "faces_rolling": n_roll, "faces_robin": n_rob, "cases_with_residual_tie": n_res,
             "zero_translation_components": sum(1 for c in cases for x in c["t"] if _F(x) == 0),
-            "oracle_solves": _RUNSTATS["solves"], "max_solve_error_rel": _RUNSTATS["max_solve_err"],
+            "oracle_solves": _RUNSTATS["solves"], "singular_mixed_systems_skipped": _RUNSTATS["singular_mixed"],
+            "max_condition_number_solved": _RUNSTATS["max_cond"], "max_solve_error_rel": _RUNSTATS["max_solve_err"],
             "max_stress_rel": _RUNSTATS["max_stress_rel"], "max_residual_rel": _RUNSTATS["max_resid_rel"]}
